@@ -60,13 +60,63 @@ class State:
             isinstance(self.bpnts, Arr) and isinstance(self.ppnts, Arr)
 
 
+_ASSUME = [None]  # condition under which the state being checked arises (a branch of a conditional update)
+
+
 def _always(cond, trials=80, seed=0, input_fn=None):
+    if _ASSUME[0] is not None:
+        cond, trials = sym.Or(sym.Not(_ASSUME[0]), cond), 600
     ok, w = symeval.equivalent(cond, sym.TRUE, trials=trials, seed=seed, positive_syms=POS, nrows=3, input_fn=input_fn)
     return ok, w
 
 
 def _eq(a, b, **kw):
-    return symeval.equivalent(a, b, trials=80, positive_syms=POS, nrows=3, tol=1e-7, **kw)
+    trials = 80
+    if _ASSUME[0] is not None:
+        a, b, trials = sym.ITE(_ASSUME[0], a, sym.ZERO), sym.ITE(_ASSUME[0], b, sym.ZERO), 600
+    return symeval.equivalent(a, b, trials=trials, positive_syms=POS, nrows=3, tol=1e-7, **kw)
+
+
+def _resolve(v, mp):
+    """the value an attribute has on the branch described by mp (condition -> TRUE/FALSE)"""
+    from ..core.values import Alt
+    if isinstance(v, Alt) and getattr(v, "conds", None):
+        for c, x in zip(v.conds, v.vals):
+            if sym.subst(c, mp) == sym.TRUE:
+                return _resolve(x, mp)
+        return v
+    if isinstance(v, Sc):
+        return Sc(sym.subst(v.e, mp))
+    if isinstance(v, Seq):
+        return Seq([_resolve(x, mp) for x in v.items], v.kind)
+    if isinstance(v, Arr):
+        return Arr(v.axes, sym.subst(v.elem, mp), v.kind, v.uid)
+    return v
+
+
+def branch_states(obj):
+    """[(assumption, State)]: one state per branch when some attributes were updated conditionally (a mesh rebuilt only
+    `if resolution changed`), else the single state"""
+    from ..core.values import Alt, ObjV
+    conds = []
+    for v in obj.attrs.values():
+        if isinstance(v, Alt) and getattr(v, "conds", None):
+            c = v.conds[0]
+            if not any(c == d or sym.Not(c) == d for d in conds):
+                conds.append(c)
+    if not conds or len(conds) > 2:
+        return [(None, State(obj))]
+    import itertools
+    out = []
+    for bits in itertools.product((True, False), repeat=len(conds)):
+        mp, lits = {}, []
+        for c, b in zip(conds, bits):
+            mp[c] = sym.TRUE if b else sym.FALSE
+            mp[sym.Not(c)] = sym.FALSE if b else sym.TRUE
+            lits.append(c if b else sym.Not(c))
+        view = ObjV(obj.cls, {k: _resolve(v, mp) for k, v in obj.attrs.items()})
+        out.append((sym.And(*lits), State(view)))
+    return out
 
 
 def _res_form(e):
@@ -87,8 +137,22 @@ def _res_form(e):
     return None
 
 
-def check_state(rep, fi, node, label, st: State, req_b, req_p, input_fn=None):
-    """invariants of the imager after an operation; req_*: the (lo, hi) the operation asked the axis to cover"""
+def check_state(rep, fi, node, label, st, req_b, req_p, input_fn=None):
+    """invariants of the imager after an operation; req_*: the (lo, hi) the operation asked the axis to cover.
+    `st` is a State or the imager object itself (then every branch of a conditional update is checked under its condition)"""
+    if not isinstance(st, State):
+        for assume, s1 in branch_states(st):
+            _ASSUME[0] = assume
+            try:
+                _check_state(rep, fi, node, label + (f" [when {sym.show(assume)[:80]}]" if assume is not None else ""), s1,
+                             req_b, req_p, input_fn)
+            finally:
+                _ASSUME[0] = None
+        return
+    _check_state(rep, fi, node, label, st, req_b, req_p, input_fn)
+
+
+def _check_state(rep, fi, node, label, st: State, req_b, req_p, input_fn=None):
     if not st.complete():
         rep.unmodelled("GE-SIB", fi, node, f"{label}: imager state not fully modelled")
         return
@@ -211,7 +275,7 @@ def run(project: Project, rep, tier: str):
                 req_b, req_p = before.brange, before.prange
             I.call_function(s, [obj, val], {}, None)
         check_state(rep, setters[hist[-1]], setters[hist[-1]].node, "after " + " → ".join(("construction",) + hist),
-                    State(obj), req_b, req_p)
+                    obj, req_b, req_p)
     # fit
     fit = cls.lookup("fit", project)
     rep.analysed(fit)
@@ -238,7 +302,7 @@ def run(project: Project, rep, tier: str):
         def spread(pt, name, idx):
             # data spanning a positive extent in both coordinates
             return None
-        stf = State(obj)
+        stf = obj
         # requested = what the setters were asked: verify through coverage of data min/max
         check_state(rep, fit, fit.node, f"after fit(skew={skew}, {len(names)} diagram(s))", stf, req_b, req_p)
         # GE-FIT: geometry changes only through the range setters
